@@ -833,7 +833,7 @@ class electrical_signal():
         if self.noise is None and other.noise is None:
             return self.__class__(self.signal * other.signal, dtype=dtype)
         elif self.noise is None:
-            return self.__class__(self.signal * other.signal, other.noise, dtype=dtype)
+            return self.__class__(self.signal * other.signal, np.broadcast_to(other.noise, np.broadcast_shapes(self.signal.shape, other.noise.shape)), dtype=dtype) # a length-1 operand may carry the noise
         elif other.noise is None:
             return self.__class__(self.signal * other.signal, self.noise, dtype=dtype)
         return self.__class__(self.signal * other.signal, self.noise * other.noise, dtype=dtype)
